@@ -578,7 +578,7 @@ func nonNilOnPath(st *engine.PathState, v ssa.Value) bool {
 	if definitelyNonNilError(v) {
 		return true
 	}
-	isNil, known := st.IsNil(func(x ssa.Value) bool { return x == v })
+	isNil, known := st.NilFact(v)
 	return known && !isNil
 }
 
@@ -826,7 +826,7 @@ func checkOwnList(c *engine.Ctx, mgr *types.Named, handleObj *types.Func) {
 	for i := 0; i < mgr.NumMethods(); i++ {
 		m := mgr.Method(i)
 		f := p.FuncOf(m)
-		if f == nil || len(engine.CallsTo(f, handleObj)) == 0 {
+		if f == nil || len(engine.CallsToVia(f, handleObj)) == 0 {
 			continue
 		}
 		seen := map[string]bool{}
@@ -849,7 +849,7 @@ func checkOwnList(c *engine.Ctx, mgr *types.Named, handleObj *types.Func) {
 		}
 		sort.Strings(names)
 		n++
-		c.Check(len(names) == 1, "pkg/plugin/server.Manager."+m.Name()+">own-list", f.Pos(), 1, names,
+		c.Check(len(names) <= 1, "pkg/plugin/server.Manager."+m.Name()+">own-list", f.Pos(), 1, names,
 			"the method reads one plugin list (reads: %s)", strings.Join(names, ", "))
 	}
 	c.Floor(n, 6)
@@ -864,7 +864,7 @@ func checkCloseNotifiesAll(c *engine.Ctx, handleObj *types.Func) {
 		return
 	}
 	n := 0
-	for _, hc := range engine.CallsTo(f, handleObj) {
+	for _, hc := range engine.CallsToVia(f, handleObj) {
 		h := engine.LoopHeader(hc.Block())
 		if h == nil {
 			c.Undecide("pkg/plugin/server.Manager.CloseProxy>notifies-all", hc.Pos(), "the Handle call is not inside a loop")
